@@ -2504,11 +2504,32 @@ class VM:
         else:
             raise JSTypeError(f"{callee} is not a function")
 
+    def _adopt_regexes(self, values) -> None:
+        """Poll regexes against the clock of the evaluation that uses them.
+
+        A RegExp kept in a global may have been created by an earlier evaluation;
+        its poll callback must not go on watching that evaluation's deadline.
+        """
+        for value in values:
+            if isinstance(value, JSRegExp):
+                internal = getattr(value, "_internal", None)
+                if internal is None:
+                    continue
+                if self.time_limit is None:
+                    internal._poll_callback = None
+                else:
+                    internal._poll_callback = (
+                        lambda: time.monotonic() - self.start_time > self.time_limit
+                    )
+
     def _call_method(
         self, method: JSValue, this_val: JSValue, args: List[JSValue]
     ) -> None:
         """Call a method."""
         from .values import JSBoundMethod
+
+        self._adopt_regexes(args)
+        self._adopt_regexes((this_val,))
 
         if isinstance(method, JSFunction):
             self._invoke_js_function(method, args, this_val)
